@@ -520,7 +520,8 @@ def harnesses(tier: str) -> List[H]:
     for (shape, kind, via) in cfgs:
         n = len(SHAPES[shape])
         si, ki = SHAPE_NAMES.index(shape), KINDS.index(kind)
-        split = range(len(OPTS)) if n == 4 else [None]
+        # (split by the option of the first class so that the processes run in parallel)
+        split = range(len(OPTS)) if (n == 4 or (kind == "method" and shape == "two_bases")) else [None]
         for o0 in split:
             defaults = {"shape_i": si, "kind_i": ki, "via": via, "fg": False}  # type: Dict[str, Any]
             for i in range(4):
